@@ -1,6 +1,7 @@
 package e4
 
 import (
+	"context"
 	"fmt"
 	"io"
 	"net/http"
@@ -11,6 +12,7 @@ import (
 	"sort"
 	"strings"
 	"sync"
+	"time"
 
 	"github.com/go-kit/log"
 	"github.com/prometheus/prometheus/config"
@@ -22,6 +24,7 @@ import (
 	"kvassverif/internal/core"
 	"kvassverif/internal/sc"
 	kdisc "tkestack.io/kvass/pkg/discovery"
+	"tkestack.io/kvass/pkg/prom"
 	"tkestack.io/kvass/pkg/target"
 )
 
@@ -89,6 +92,41 @@ type c02Features struct {
 	GroupFailure         bool // the reference reported a per-target failure in some group
 }
 
+// persistent discovery: one TargetsDiscovery that lives across configuration reloads
+type persistentDisc struct {
+	cm     *prom.ConfigManager
+	d      *kdisc.TargetsDiscovery
+	ch     chan map[string][]*targetgroup.Group
+	cancel context.CancelFunc
+}
+
+func newPersistentDisc() *persistentDisc {
+	p := &persistentDisc{cm: prom.NewConfigManager(), d: kdisc.New(sc.Quiet), ch: make(chan map[string][]*targetgroup.Group)}
+	p.cm.AddReloadCallbacks(p.d.ApplyConfig)
+	ctx, cancel := context.WithCancel(context.Background())
+	p.cancel = cancel
+	go func() { _ = p.d.Run(ctx, p.ch) }()
+	return p
+}
+
+func (p *persistentDisc) round(groups map[string][]TG) error {
+	in := map[string][]*targetgroup.Group{}
+	for j, gs := range groups {
+		in[j] = toPromGroups(gs)
+	}
+	select {
+	case p.ch <- in:
+	case <-time.After(30 * time.Second):
+		return fmt.Errorf("discovery did not accept the update")
+	}
+	select {
+	case <-p.d.ActiveTargetsChan():
+	case <-time.After(30 * time.Second):
+		return fmt.Errorf("discovery did not publish the update")
+	}
+	return nil
+}
+
 func runC02(w *core.WorkerCtx, idx int) *core.CaseResult {
 	r := core.NewRng(w.Seed, 0xC02, uint64(idx))
 	res := &core.CaseResult{}
@@ -96,18 +134,64 @@ func runC02(w *core.WorkerCtx, idx int) *core.CaseResult {
 	for i := range spec.Jobs {
 		spec.Jobs[i].ProxyURL = "" // the generated file sets its own proxy; the original must not need one to compare URLs
 	}
-	text := cfggen.Render(spec, cfggen.Style{Indent: 2})
 	groups := map[string][]TG{}
 	for _, j := range spec.Jobs {
 		groups[j.Name] = GenGroups(r, j.Name)
 	}
+	text := cfggen.Render(spec, cfggen.Style{Indent: 2})
+	res.Sig = fmt.Sprintf("%x", core.HashString(text+fmt.Sprint(groups)))
+	pd := newPersistentDisc()
+	defer pd.cancel()
+	nShards := 1 + r.Intn(3)
+	var sidecars []*sc.Instance
+	for s := 0; s < nShards; s++ {
+		dir := filepath.Join(w.Scratch, fmt.Sprintf("c02-%d-%d", idx, s))
+		in, err := sc.New(sc.Options{StoreDir: dir})
+		if err != nil {
+			res.Inconcl = "sidecar: " + err.Error()
+			return res
+		}
+		defer os.RemoveAll(dir)
+		sidecars = append(sidecars, in)
+	}
+	if !c02Phase(res, r, "first configuration", text, groups, pd, sidecars) {
+		return res
+	}
+	// phase 2: the configuration is reloaded with edited relabel programs / path / scheme, the discovery
+	// manager re-sends the same groups; discovery and sidecars are the same objects as before
+	if len(res.Viol) == 0 {
+		spec2 := clone(spec)
+		for i := range spec2.Jobs {
+			spec2.Jobs[i].Relabel = append(spec2.Jobs[i].Relabel, cfggen.Relabel{Target: "phase", Replacement: "two"})
+		}
+		spec2.Jobs[0].MetricsPath = "/reloaded/path"
+		last := &spec2.Jobs[len(spec2.Jobs)-1]
+		if last.Scheme == "https" {
+			last.Scheme = "http"
+		} else {
+			last.Scheme = "https"
+		}
+		if len(spec2.Jobs) > 1 && r.Intn(2) == 0 {
+			spec2.Jobs = spec2.Jobs[:len(spec2.Jobs)-1]
+		}
+		text2 := cfggen.Render(spec2, cfggen.Style{Indent: 2})
+		c02Phase(res, r, "after a reload", text2, groups, pd, sidecars)
+	}
+	res.Viol = dedupeV(res.Viol)
+	if idx < 2 {
+		res.Sample = map[string]interface{}{"config": text, "groups": groups}
+	}
+	return res
+}
+
+// c02Phase loads the configuration everywhere, runs one discovery round and compares the sharded
+// pipeline with the reference. Returns false when the phase could not be set up.
+func c02Phase(res *core.CaseResult, r *core.Rng, phase, text string, groups map[string][]TG, pd *persistentDisc, sidecars []*sc.Instance) bool {
 	orig, err := config.Load(text, false, log.NewNopLogger())
 	if err != nil {
 		res.Inconcl = "generated configuration rejected: " + err.Error()
-		return res
+		return false
 	}
-	res.Sig = fmt.Sprintf("%x", core.HashString(text+fmt.Sprint(groups)))
-
 	// ---- reference
 	ref := map[string]map[string]bool{}
 	feat := map[string]*c02Features{}
@@ -145,13 +229,20 @@ func runC02(w *core.WorkerCtx, idx int) *core.CaseResult {
 	}
 
 	// ---- kvass: discovery -> shards -> sidecar -> generated file -> Prometheus loader -> proxy
-	d, _, err := discover(text, groups, 1)
-	if err != nil {
-		res.Inconcl = "discovery: " + err.Error()
-		return res
+	if err := pd.cm.ReloadFromRaw([]byte(text)); err != nil {
+		res.Inconcl = "coordinator rejected configuration: " + err.Error()
+		return false
 	}
-	active := d.ActiveTargetsByHash()
-	nShards := 1 + r.Intn(3)
+	live := map[string][]TG{}
+	for _, jc := range orig.ScrapeConfigs {
+		live[jc.JobName] = groups[jc.JobName]
+	}
+	if err := pd.round(live); err != nil {
+		res.Inconcl = "discovery: " + err.Error()
+		return false
+	}
+	active := pd.d.ActiveTargetsByHash()
+	nShards := len(sidecars)
 	assign := make([]map[string][]*target.Target, nShards)
 	for i := range assign {
 		assign[i] = map[string][]*target.Target{}
@@ -170,32 +261,25 @@ func runC02(w *core.WorkerCtx, idx int) *core.CaseResult {
 	for _, jc := range orig.ScrapeConfigs {
 		kv[jc.JobName] = map[string]bool{}
 	}
-	for s := 0; s < nShards; s++ {
-		dir := filepath.Join(w.Scratch, fmt.Sprintf("c02-%d-%d", idx, s))
-		in, err := sc.New(sc.Options{StoreDir: dir})
-		if err != nil {
-			res.Inconcl = "sidecar: " + err.Error()
-			return res
-		}
-		defer os.RemoveAll(dir)
+	for s, in := range sidecars {
 		if err := in.PushConfig(text); err != nil {
 			res.Inconcl = "sidecar rejected configuration: " + err.Error()
-			return res
+			return false
 		}
 		if err := in.UpdateTargets(assign[s]); err != nil {
 			res.Inconcl = "sidecar rejected assignment: " + err.Error()
-			return res
+			return false
 		}
 		gen, err := in.GeneratedConfig()
 		if err != nil {
 			res.Inconcl = "no generated file: " + err.Error()
-			return res
+			return false
 		}
 		gcfg, err := config.Load(string(gen), false, log.NewNopLogger())
 		if err != nil {
-			res.Violate("C02/generated-config-invalid", "Prometheus rejects the generated configuration: %v", err)
+			res.Violate("C02/generated-config-invalid", "%s: Prometheus rejects the generated configuration: %v", phase, err)
 			res.Witness = map[string]interface{}{"config": text, "generated": string(gen)}
-			return res
+			return false
 		}
 		rt := &recTransport{}
 		for _, jc := range orig.ScrapeConfigs {
@@ -210,11 +294,11 @@ func runC02(w *core.WorkerCtx, idx int) *core.CaseResult {
 			for _, g := range staticGroups(gj) {
 				ts, errs := scrape.TargetsFromGroup(g, gj)
 				if len(errs) > 0 {
-					res.Violate("C02/generated-target-invalid", "job %s: Prometheus cannot build a target from the generated static entry: %v", gj.JobName, errs[0])
+					res.Violate("C02/generated-target-invalid", "%s: job %s: Prometheus cannot build a target from the generated static entry: %v", phase, gj.JobName, errs[0])
 				}
 				for _, t := range ts {
 					if t.Labels().Len() == 0 {
-						res.Violate("C02/generated-target-dropped", "job %s: a generated static entry is dropped by the generated job's relabeling", gj.JobName)
+						res.Violate("C02/generated-target-dropped", "%s: job %s: a generated static entry is dropped by the generated job's relabeling", phase, gj.JobName)
 						continue
 					}
 					// Prometheus sends this URL through the configured proxy
@@ -232,7 +316,7 @@ func runC02(w *core.WorkerCtx, idx int) *core.CaseResult {
 					out := rt.last
 					rt.mu.Unlock()
 					if out == nil {
-						res.Violate("C02/proxy-sent-nothing", "job %s: proxy answered %d and made no real request for %s", gj.JobName, rw.Code, t.URL().String())
+						res.Violate("C02/proxy-sent-nothing", "%s: job %s: proxy answered %d and made no real request for %s", phase, gj.JobName, rw.Code, t.URL().String())
 						continue
 					}
 					kv[gj.JobName][t.Labels().String()+" @ "+normURL(out.URL)] = true
@@ -265,7 +349,7 @@ func runC02(w *core.WorkerCtx, idx int) *core.CaseResult {
 			delete(kv[j], k)
 		}
 		if n == 0 {
-			res.Violate("C02/missing-targets/shared-by-jobs", "target %s is obtained by jobs %v in plain Prometheus and by none of them in the sharded pipeline", k, js)
+			res.Violate("C02/missing-targets/shared-by-jobs", "%s: target %s is obtained by jobs %v in plain Prometheus and by none of them in the sharded pipeline", phase, k, js)
 		}
 	}
 	for _, jc := range orig.ScrapeConfigs {
@@ -305,16 +389,12 @@ func runC02(w *core.WorkerCtx, idx int) *core.CaseResult {
 		case f.ParamRelabel || f.SDParamLabel:
 			cause = "param-label"
 		}
-		res.Violate("C02/"+class+"/"+cause, "job %s: plain Prometheus and the sharded pipeline disagree (%s). only Prometheus: %v ; only kvass: %v", j, class, clipList(missing, 3), clipList(extra, 3))
+		res.Violate("C02/"+class+"/"+cause, "%s: job %s: plain Prometheus and the sharded pipeline disagree (%s). only Prometheus: %v ; only kvass: %v", phase, j, class, clipList(missing, 3), clipList(extra, 3))
 		if res.Witness == nil {
-			res.Witness = map[string]interface{}{"config": text, "groups": groups[j], "job": j, "only_prometheus": missing, "only_kvass": extra, "features": f}
+			res.Witness = map[string]interface{}{"phase": phase, "config": text, "groups": groups[j], "job": j, "only_prometheus": missing, "only_kvass": extra, "features": f}
 		}
 	}
-	res.Viol = dedupeV(res.Viol)
-	if idx < 2 {
-		res.Sample = map[string]interface{}{"config": text, "groups": groups, "reference": keys(ref)}
-	}
-	return res
+	return true
 }
 
 func keys(m map[string]map[string]bool) map[string][]string {
@@ -375,7 +455,7 @@ func init() {
 		ID:    "C02",
 		Level: "exploration",
 		Rule: "differential against the vendored Prometheus library: case = generated configuration (1-4 jobs; scheme, metrics path, params incl. multi-valued and match[], relabel programs: replace into plain labels / __address__ / __metrics_path__ / __scheme__ / __param_<k> with k inside and outside params, keep/drop, labelmap from meta labels incl. digit-leading names, labeldrop, hashmod) + generated target groups (ports present/absent, IPv6 literals, group vs target labels, __param_/__scheme__/__metrics_path__ from discovery, duplicates, dropped targets); " +
-			"reference = config.Load + scrape.TargetsFromGroup on the original; kvass = real TargetsDiscovery -> random split over 1-3 real sidecars (JSON API) -> generated file -> config.Load -> TargetsFromGroup -> request through the real Proxy.ServeHTTP -> URL observed at JobInfo.Cli; oracle = per job the sets of (final labels, scheme://host/path ? sorted query) are equal; " +
+			"reference = config.Load + scrape.TargetsFromGroup on the original; kvass = real TargetsDiscovery -> random split over 1-3 real sidecars (JSON API) -> generated file -> config.Load -> TargetsFromGroup -> request through the real Proxy.ServeHTTP -> URL observed at JobInfo.Cli; oracle = per job the sets of (final labels, scheme://host/path ? sorted query) are equal; then the configuration is reloaded with edited relabel programs, metrics path and scheme (one job possibly removed) on the SAME discovery and sidecar objects, the groups are re-sent, and the comparison is repeated; " +
 			"non-trivial = the reference has at least one target; distinct = hash of configuration text and groups",
 		Assumptions: []string{
 			"the generator does not emit relabel programs that delete job or instance, params named _hash/_jobName/_scheme, or values needing YAML block scalars",
